@@ -301,8 +301,7 @@ class Explorer:
             if args[0] is True:
                 def hook(it__, m, items):
                     if len(items) < 2: return items
-                    k = it.choose(3, 'maporder')
-                    it.path.nondet.append(('vfMapOrderChoice', 'order', k))
+                    k = it.choose(3, 'maporder')   # not a native input: Go picks its own order
                     if k == 1: return items[::-1]
                     if k == 2: return items[1:] + items[:1]
                     return items
